@@ -79,7 +79,7 @@ class Gen:
         self.uid = 0
         self.opts = dict(comments=True, nocl=(), max_depth=3, long_bodies=True, brace_params=True, async_=True,
                          multiline_header=True, strings=True, callbacks=True, classes=True, inits=True,
-                         ternary_calls=False)
+                         ternary_calls=True)
         self.opts.update(opts or {})
         self.funcs = []          # (fid, name, depth, parent fid or None)
         self.features = set()
@@ -288,9 +288,13 @@ class Gen:
             self.features.add("char-delim")
         elif k < 0.8:
             self.o.code("total = total + call(x, (y + 1));", owners)
-        elif k < 0.86 and self.opts["ternary_calls"]:
+        elif k < 0.84 and self.opts["ternary_calls"]:
             self.o.code("v = a ? pick(1) : 2;", owners)
             self.features.add("ternary-call")
+        elif k < 0.86 and self.opts["ternary_calls"] and L == "TypeScript":
+            self.o.code(self.r.choice(["declare function ext(a: number): void;", "function over(a: number): number;",
+                                       "type Fn = (a: number) => void;"]), owners)
+            self.features.add("bodiless-declaration")
         elif k < 0.93:
             # statement spread over two lines
             self.o.code("z = call(a,", owners)
